@@ -11,7 +11,7 @@ RULE = ("pairs of constraints with 1-3 '||' groups of 1-3 clauses over every ope
 def oracle_pair(c, results, probes, R=None):
     """The property on the implementation.  Returns None or a detail string."""
     ca, cb = c.ca, c.cb
-    bounds = I.bounds_of(ca) + I.bounds_of(cb)
+    bounds = I.mentioned_bounds(ca, c.ga) + I.mentioned_bounds(cb, c.gb)
     for op in VC.OPS3:
         r = results[op]
         if isinstance(r, Exception):
@@ -39,7 +39,7 @@ def oracle_pair(c, results, probes, R=None):
         return f"swapped operation raised {type(e).__name__}"
     return None
 
-def oracle_identities(ca):
+def oracle_identities(ca, ga=()):
     from poetry.core.constraints.version import EmptyConstraint, VersionRange
     E, A = EmptyConstraint(), VersionRange()
     probes = I.critical_probes(I.bounds_of(ca))
@@ -52,7 +52,7 @@ def oracle_identities(ca):
                   ("a−*", ca.difference(A), lambda x: False), ("*−a", A.difference(ca), lambda x: not x)]
     except Exception as e:  # noqa
         return f"identity operation raised {type(e).__name__}: {e}"
-    bounds = I.bounds_of(ca)
+    bounds = I.mentioned_bounds(ca, ga)
     for v in probes:
         if not I.regular(v, bounds): continue
         x = ca.allows(v)
@@ -74,7 +74,7 @@ def run_pairs(R, cases, M, judge=True):
                 results[op] = e
             except Exception as e:  # noqa
                 results[op] = e
-        bounds = I.bounds_of(c.ca) + I.bounds_of(c.cb)
+        bounds = I.mentioned_bounds(c.ca, c.ga) + I.mentioned_bounds(c.cb, c.gb)
         for r in results.values():
             if not isinstance(r, Exception): bounds += I.bounds_of(r)
         probes = I.critical_probes(bounds)
@@ -82,11 +82,12 @@ def run_pairs(R, cases, M, judge=True):
         R.case(dict(a=c.a, b=c.b), nontrivial=nt)
         R.count("pairs"); R.count("nontrivial_pairs" if nt else "trivial_pairs")
         R.count("probes", len(probes))
-        if any(v.is_local() for v in I.bounds_of(c.ca) + I.bounds_of(c.cb)): R.count("pairs_with_local_bounds")
+        has_local = any(v.is_local() for v in I.bounds_of(c.ca) + I.bounds_of(c.cb))
+        if has_local: R.count("pairs_with_local_bounds_not_judged")
         obounds = I.bounds_of(c.ca) + I.bounds_of(c.cb)
         sr = all(x == y or (x.epoch, x.release) != (y.epoch, y.release) for x in obounds for y in obounds)
         R.count("self_regular_pairs" if sr else "non_self_regular_pairs")
-        if judge:
+        if judge and not has_local:      # bounds with local labels are outside the property's domain
             d = oracle_pair(c, results, probes)
             if d: R.fail(dict(a=c.a, b=c.b), d)
         if VC.model_ok(c):
@@ -125,9 +126,9 @@ def run(tier):
     run_pairs(R, cases, M)
     # identities with the empty and the universal constraint
     for c in cases[: 400 if tier == "quick" else 5000]:
-        if not isinstance(c.ca, Exception):
+        if not isinstance(c.ca, Exception) and not any(v.is_local() for v in I.bounds_of(c.ca)):
             R.count("identity_cases")
-            d = oracle_identities(c.ca)
+            d = oracle_identities(c.ca, c.ga)
             if d: R.fail(dict(a=c.a, identities=True), d)
     M.close()
     return R.finish(VC.TRUSTED, VC.ASSUME, RULE, "make -C coq Properties/C05.vo && coqc Properties/C05.v (Print Assumptions)")
@@ -136,7 +137,7 @@ def replay(rep):
     c = VC.Case(); case = rep["case"]
     c.a = case["a"]; c.ca, c.ga = I.parse_with_groups(c.a)
     if case.get("identities"):
-        d = oracle_identities(c.ca)
+        d = oracle_identities(c.ca, c.ga)
     else:
         c.b = case["b"]; c.cb, c.gb = I.parse_with_groups(c.b)
         results = {}
